@@ -2,6 +2,7 @@
 //! the real crates of /repo (path dependencies, feature `verif`).
 mod apigate;
 mod backup;
+mod sentinel;
 mod syncclient;
 mod bk;
 mod chunker;
@@ -59,6 +60,7 @@ fn main() {
             "api-gate" => apigate::run(&args[2]).await,
             "schema-replay" => schemareplay::run(&args[2]).await,
             "sync-client-probe" => syncclient::run(args[2].parse().unwrap(), args[3].parse().unwrap(), &args[4]).await,
+            "sentinel-probe" => sentinel::run(&args[2]).await,
             "backup-probe" => backup::run(&args[2], &args[3]).await,
             "sim-replay" => sim::run_replay(&args[2], &args[3]).await,
             "replay-members" => members::run(&args[2]),
